@@ -276,6 +276,10 @@ class Evaluator:
             if n == "isinstance" and len(args) == 2:
                 if args[1] == "Shape":
                     return isinstance(args[0], ShapeV) and args[0].plain
+                if args[1] == "int":
+                    return isinstance(args[0], int) and not isinstance(args[0], (Bits, bool))
+                if args[1] in ("Value", "ValueCastable", "ValueLike") or (isinstance(args[1], list) and "Value" in args[1]):
+                    return isinstance(args[0], Bits)
                 raise NotEvaluable("isinstance")
             if n in ("C", "Const") and args:
                 w = args[1] if len(args) > 1 else None
@@ -321,7 +325,13 @@ class Evaluator:
             if isinstance(recv, Bits):
                 if m == "bit_select" and len(args) == 2:
                     off, w = args
-                    if not isinstance(off, int) or isinstance(off, Bits) or not isinstance(w, int):
+                    if isinstance(off, Bits):
+                        from . import bitalg
+
+                        off = bitalg.concrete(off)  # a signal-shaped offset with known value
+                        if off is not None and off < 0:
+                            raise WiringError("bit_select with a negative offset")
+                    if not isinstance(off, int) or not isinstance(w, int):
                         raise NotEvaluable("bit_select with a non-concrete offset")
                     return Bits(recv[off + i] if 0 <= off + i < len(recv) else 0 for i in range(w))
                 if m == "word_select" and len(args) == 2:
